@@ -1,6 +1,12 @@
 package rules
 
-import "verif/tools/internal/ir"
+import (
+	"path/filepath"
+	"sort"
+	"strings"
+
+	"verif/tools/internal/ir"
+)
 
 // pin is one pinned canonical form (normal form "nf" or emission template "tpl") of a function,
 // with the documented fact it formalises.
@@ -28,6 +34,12 @@ func (c *Ctx) checkPins(f *FC, rule string, pins []pin) {
 			ks := ir.NewNormalizer()
 			ks.KeepShared = true
 			got := ir.String(f.Path, ks.Func(fn))
+			if got != p.want {
+				if got2, helpers := f.nfInliningNewHelpers(fn, true); len(helpers) > 0 && got2 == p.want {
+					c.R.OK(rule, p.fn, "closed-form", c.Pos(f.M.Fset, fn.Decl.Pos()), p.why+" (after inlining the helper(s) added since the review: "+strings.Join(helpers, ", ")+")")
+					continue
+				}
+			}
 			c.R.Check(got == p.want, rule, p.fn, "closed-form", c.Pos(f.M.Fset, fn.Decl.Pos()), p.why,
 				"closed form is not the reviewed one ("+p.why+"); "+diffHint(got, p.want))
 		case "tpl":
@@ -43,4 +55,46 @@ func (c *Ctx) checkPins(f *FC, rule string, pins []pin) {
 				"emission template is not the documented one ("+p.why+"); "+diffHint(got, p.want))
 		}
 	}
+}
+
+
+// nfInliningNewHelpers: the normal form of fn with every package-local function that did not exist when the pins
+// were reviewed (baselineFuncs) inlined at its calls — so that extracting a helper out of a pinned function, the
+// most common behaviour-preserving refactoring, does not change the compared form.  Returns the helpers inlined.
+func (f *FC) nfInliningNewHelpers(fn *ir.Func, keepShared bool) (string, []string) {
+	base, ok := baselineFuncs[filepath.Base(f.M.Dir)]
+	if !ok {
+		return "", nil
+	}
+	inl := map[string]*ir.Func{}
+	for k, v := range f.N.Inline {
+		inl[k] = v
+	}
+	var names []string
+	got := ""
+	for round := 0; round < 4; round++ {
+		n := ir.NewNormalizer()
+		n.KeepShared = keepShared
+		for k, v := range inl {
+			n.Inline[k] = v
+		}
+		t := n.Func(fn)
+		got = ir.String(f.Path, t)
+		added := false
+		ir.Walk(t, func(x ir.Term) bool {
+			if fr, ok := x.(*ir.FuncRef); ok {
+				if g, ok := f.Prog.ByKey[fr.Key]; ok && g != fn && !base[g.Name] && inl[g.Key] == nil {
+					inl[g.Key] = g
+					names = append(names, g.Name)
+					added = true
+				}
+			}
+			return true
+		})
+		if !added {
+			break
+		}
+	}
+	sort.Strings(names)
+	return got, names
 }
